@@ -381,7 +381,7 @@ func contractsFor(c *Ctx, prop string) *bounds.Hooks {
 		return c17Hooks(c, &c.c17Seen)
 	case "C13":
 		c.lenPairsSeen = map[ssa.Instruction]bool{}
-		return mergeHooks(lenPrefixHooks(c, c.lenPairsSeen), wClosedHooks(c, &c.wClosedSeen))
+		return mergeHooks(lenPrefixHooks(c, c.lenPairsSeen), wClosedHooks(c, &c.wClosedSeen), carryNilHooks(c, "codecs.(*AV1Payloader).Payload", &c.carryNilSeen))
 	}
 	return nil
 }
